@@ -21,7 +21,10 @@ import time
 VERIF = os.path.dirname(os.path.dirname(os.path.abspath(__file__)))
 REPO = os.environ.get("VERIF_REPO", "/repo")
 LEAN = os.environ.get("VERIF_LEAN_DIR", os.path.join(VERIF, "lean"))
-BUILD = os.path.join(VERIF, ".build")
+# runs against a scratch worktree (VERIF_REPO) get their own build directory so that they never
+# disturb a concurrent run against /repo
+BUILD = os.path.join(VERIF, ".build") if os.path.realpath(REPO) == "/repo" else os.path.join(
+    VERIF, ".build", "scratch-" + hashlib.sha1(os.path.realpath(REPO).encode()).hexdigest()[:10])
 ALLOWED_AXIOMS = {"propext", "Classical.choice", "Quot.sound"}
 FORBIDDEN = [r"\bsorry\b", r"\badmit\b", r"^\s*axiom\s", r"\bnative_decide\b", r"\bbv_decide\b",
              r"\bimplemented_by\b", r"\bunsafe\s", r"maxHeartbeats\s+0\b", r"\bextern\b"]
